@@ -72,11 +72,13 @@ class SimState:
         self.parent_fds = set()      # parent-side pipe ends; every forked child closes them
         self.extra_close = set()     # other fds a worker must not keep (result pipe of the world process)
         self.live = []               # live _Worker objects
+        self.round_offset = 0        # pool rounds used up by prelude runs in the same process
+        self.fd_margin = None        # fault: workers may open at most this many descriptors beyond what they start with
         self.stats = {
             "pools": 0, "rounds_with_tasks": 0, "tasks": 0, "workers_forked": 0, "nodes": [],
             "assign_choices": 0, "inversions": 0, "stalls": 0, "max_overtaken": 0, "max_tasks_one_worker": 0,
             "bytes_task": 0, "bytes_result": 0, "task_exceptions": 0, "bytes_destroyed": 0,
-            "worker_output_handles": 0, "signatures": [], "unordered_maps": 0, "late_starts": 0,
+            "worker_output_handles": 0, "signatures": [], "unordered_maps": 0, "late_starts": 0, "fd_limited_workers": 0,
         }
 
     def ev(self, kind, *ids):
@@ -170,8 +172,13 @@ def _handles_on(paths):
     return n
 
 
-def _worker_loop(rfd, wfd, round_no, watch_paths):
+def _worker_loop(rfd, wfd, round_no, watch_paths, fd_margin=None):
     base_handles = _handles_on(watch_paths)
+    if fd_margin is not None:
+        import resource
+        n0 = len(os.listdir("/proc/self/fd"))
+        soft, hard = resource.getrlimit(resource.RLIMIT_NOFILE)
+        resource.setrlimit(resource.RLIMIT_NOFILE, (min(hard, n0 + fd_margin), hard))
     while True:
         msg = _recv(rfd)
         if msg[:1] == b"X":
@@ -217,7 +224,7 @@ class _Worker:
                         os.close(fd)
                     except OSError:
                         pass
-                _worker_loop(p2c_r, c2p_w, round_no, state.watch_paths)
+                _worker_loop(p2c_r, c2p_w, round_no - state.round_offset, state.watch_paths, state.fd_margin)
             except BaseException:  # noqa: BLE001
                 code = 70
             finally:
@@ -233,6 +240,8 @@ class _Worker:
         state.parent_fds.update((self.wfd, self.rfd))
         state.live.append(self)
         state.stats["workers_forked"] += 1
+        if state.fd_margin is not None:
+            state.stats["fd_limited_workers"] += 1
 
     def run(self, idx, payload):
         _send(self.wfd, b"T" + pickle.dumps((idx, payload)))
@@ -304,7 +313,7 @@ class SimPool:
         self.state = st
         self.workers = {}
         st.round += 1
-        self.round = st.round
+        self.round = st.round          # absolute; workers are told round - round_offset (1 = first pass of the main run)
         st.stats["pools"] += 1
         st.stats["nodes"].append(self.nodes)
         st.ev("pool", self.round, self.nodes)
